@@ -585,6 +585,7 @@ func hostileScripts(r *rep.Report, e rep.Env, via string) {
 		"Env.Search()", "Env.Search(5)", "Env.Search({a:'?x'}, 'yes')", "Env.Query()", "Env.Query({bogus:1})", "Env.Query({and:5})",
 		"Env.match()", "Env.match(1,2)", "Env.match({a:'?x'}, null)", "Env.ProcessEvent()", "Env.ProcessEvent(null)", "Env.ProcessEvent('str')",
 		"Env.AddRule()", "Env.AddRule('r', 5)", "Env.AddRule('r', {when: 5})", "Env.RemRule(null)", "Env.sleep('long')", "Env.sleep(-1)",
+		"throw {toString: function(){ throw 1 }}", "throw {valueOf: function(){ return {} }, toString: function(){ return {} }}", "throw null", "throw undefined",
 		"Env.out()", "Env.bindings.x.y.z", "Env.secsFromNow()", "Env.secsFromNow('soon')", "Env.encode()", "Env.gensym(5)", "Env.exit()", "Env.log()",
 	}
 	for half := 0; half < 2; half++ {
